@@ -106,7 +106,7 @@ def cases(tier, seed):
     for k in KINDS:
         for sn in split_names(k):
             out.append(f"{k}/curve/{sn}")
-    out += ["hdd_tidd_cdd_smooth/bounds/x", "hdd_tidd_cdd/bounds/x", "tidd/uncertainty/x", "tidd/limits/5", "tidd/limits/6", "refit/segments/x"]
+    out += ["hdd_tidd_cdd_smooth/bounds/x", "hdd_tidd_cdd/bounds/x", "tidd/uncertainty/x", "tidd/limits/5", "tidd/limits/6", "refit/segments/x", "hdd_tidd_cdd_smooth/rounding/x"]
     return out
 
 
@@ -646,6 +646,12 @@ def run_case(case: Case, name: str):
     kind, mode, split = name.split("/")
     if kind == "refit":
         return run_segments(case)
+    if mode == "rounding":
+        # the scored curve (smoothing applied, then full_model orders the sides) and the kept one agree only while the shifted
+        # balance points keep their order in float64: the rounding-error-model lemma of C11 on the real get_smooth_coeffs
+        from . import c11
+        REPLAY["rounding"] = c11.replay_rounding
+        return c11.run_rounding(case)
     if mode == "bounds":
         return run_bounds(case, kind.endswith("smooth"))
     if mode == "uncertainty":
